@@ -6,7 +6,7 @@ from . import spec, readops
 
 
 def make(path, n, bs, q, rng=None, is2d=False, version=None, il=None, xl=None, z=None, n_arrays=2, irregular=False,
-         holes=0.2, data=None, dups=False, n_header_blocks=2):
+         holes=0.2, data=None, dups=False, n_header_blocks=2, il_dup=False):
     """returns FileInfo with the expected symbolic provenance volume"""
     rng = rng or np.random.default_rng(0)
     lay = spec.Layout(n, bs, q, is2d=is2d)
@@ -67,6 +67,12 @@ def make(path, n, bs, q, rng=None, is2d=False, version=None, il=None, xl=None, z
     arrays = dict(sorted(arrays.items()))
     if dups and 181 in arrays:
         dupmap = {197: 181}
+    if il_dup and not is2d:
+        # the inline numbers are stored under an earlier header word (FieldRecord, code 9) and INLINE_3D is recorded as its
+        # duplicate -- what heuristic detection writes for a SEG-Y whose field record number equals its inline number
+        arrays[9] = arrays.pop(189)
+        arrays = dict(sorted(arrays.items()))
+        dupmap[189] = 9
     # the source-data hash field: a function of the samples alone (symbolic data: of the layout), as in real files --
     # two files with the same samples and different headers carry the same hash
     import hashlib
